@@ -19,6 +19,7 @@ const setPkg = "github.com/emirpasic/gods/v2/sets/linkedhashset"
 func checkC19(c *chk.Ctx) {
 	h := newH(c)
 	c.Decided = []string{
+		"R19f the selection context never changes the candidate set it was handed in place (the balancer shares one set across all swaps of a round and reads it to tell deleted servers from live ones)",
 		"R19a the ensemble selector only succeeds when the number of distinct selected ids equals the replication factor, and returns exactly the ids it added to the selected set",
 		"R19b the candidate set only shrinks: it is reassigned to Candidates - selected or to the anti-affinity filter's result; the load selector returns only members of the candidate set, the final selector an element of it",
 		"R19c a swap proposes one replacement: the selected set is the ensemble minus the node being replaced, a target equal to that node is refused, and the new ensemble drops exactly the old id and appends the new one once",
@@ -34,6 +35,7 @@ func checkC19(c *chk.Ctx) {
 	ruleR19c(h)
 	ruleR19d(h)
 	ruleR19e(h)
+	ruleR19f(h)
 }
 
 func isSetMethod(c *ssa.CallCommon, name string) bool {
@@ -667,5 +669,60 @@ func ruleR19e(h *H) {
 	}
 	if n == 0 {
 		h.Anchor(rule, "the loop-carried result set of the anti-affinity filter")
+	}
+}
+
+// ruleR19f: the candidate set in a selection context is the caller's set. The balancer
+// builds it once per round, hands the same set to every swap and also uses it to decide
+// which servers were removed from the cluster. Narrowing it has to produce a new set
+// (Difference / Intersection); Remove / Add / Clear on the field's value change the
+// caller's view: live members of an ensemble look deleted and get evacuated, and one shard
+// is swapped several times to the same target.
+func ruleR19f(h *H) {
+	const rule = "R19f"
+	h.Rule(rule, "K3", "no mutating set operation (Add, Remove, Clear) is applied to the value of the Candidates field of the selection context", 1)
+	mutators := map[string]bool{"Add": true, "Remove": true, "Clear": true}
+	n, uses := 0, 0
+	for _, fn := range h.P.Funcs {
+		if !strings.HasPrefix(ir.RelPkg(ir.PkgPathOf(fn)), "coordinator/") || fn.Blocks == nil {
+			continue
+		}
+		fn := fn
+		ir.Instrs(fn, func(in ssa.Instruction) {
+			c := ir.CallOf(in)
+			if c == nil || len(c.Args) == 0 && !c.IsInvoke() {
+				return
+			}
+			recv := c.Value
+			name := ""
+			if c.IsInvoke() {
+				name = c.Method.Name()
+			} else if f := c.StaticCallee(); f != nil && len(c.Args) > 0 {
+				recv, name = c.Args[0], f.Name()
+			} else {
+				return
+			}
+			r, ok := ir.FieldLoadOf(ir.Canon(recv))
+			if !ok || r.Struct == nil || r.Field != "Candidates" || r.Struct.Obj().Pkg() == nil || !strings.HasPrefix(ir.RelPkg(r.Struct.Obj().Pkg().Path()), "coordinator/selectors") {
+				return
+			}
+			uses++
+			if i := strings.IndexByte(name, '['); i > 0 {
+				name = name[:i] // instantiated generic method
+			}
+			if !mutators[name] {
+				return
+			}
+			n++
+			h.Fn(ir.FuncName(fn))
+			h.Bad(rule, fmt.Sprintf("candidate set mutated in %s", ir.FuncName(fn)), h.pos(in), "the set handed to the selection context is changed in place ("+name+"): the balancer's shared candidate set loses live servers, which are then treated as deleted and evacuated, and the same shard is swapped again to a target it was already given")
+		})
+	}
+	if uses == 0 {
+		h.Anchor(rule, "uses of the Candidates field of the selection context")
+		return
+	}
+	if n == 0 {
+		h.OK(rule, "candidate set of the selection context", "", fmt.Sprintf("%d method calls on the field's value, none mutating", uses))
 	}
 }
